@@ -1345,7 +1345,7 @@ class CutTransformation(object):
                             kind, data, pos = event
                             assert kind is START
                             data = (data[0], data[1] - attributes)
-                            attributes = None
+                            attributes = []
                             stream.push((mark, (kind, data, pos)))
                         else:
                             stream.push((mark, event))
